@@ -3,7 +3,7 @@
 import json, subprocess
 
 claimed = {
- "C01": ("exploration", "fs-history", "7.1", "Seeded simulated histories (interleaved open/seek/read/write/flush/close over up to MAX_FILES files and up to 3 volumes, three API flavours incl. embedded-io) run against the real library on a simulated block device in lock-step with a byte-array reference model; every read, length, offset, EOF and seek result is compared; one case in 64 is a huge-file history (2 GiB .. 4 GiB-1 file, offsets across 2^31 and the size limit; model = formatted medium + overlay of written blocks). Sampling of histories and geometries, not enumeration."),
+ "C01": ("exploration", "fs-history", "7.1", "Seeded simulated histories (interleaved open/seek/read/write/flush/close over up to MAX_FILES files and up to 3 volumes, three API flavours incl. embedded-io) run against the real library on a simulated block device in lock-step with a byte-array reference model; every read, length, offset, EOF and seek result is compared (through the embedded-io adapter also SeekFrom::End(+n) and positions / moves of 2^32 and more, and writes of a one and then zeros); one case in 64 is a huge-file history (2 GiB .. 4 GiB-1 file, offsets across 2^31 and the size limit; model = formatted medium + overlay of written blocks). Sampling of histories and geometries, not enumeration."),
  "C02": ("exploration", "fs-history", "7.2", "Seeded histories with a moving simulated clock; at quiescent points and at the end the raw medium is read by an independent FAT reader and by a fresh mount of the library and compared with the model (names, kinds, sizes, contents, ctime, mtime, untouched entries/chains byte for byte)."),
  "C03": ("exploration", "fs-history", "7.3", "Independent fsck over the raw medium after every API call that wrote (success or error), including the pending chains/sizes of open files; workload biased to volumes with 0..64 free clusters and small FAT16 roots."),
  "C04": ("exploration", "fs-history", "7.4", "Monitor on every BlockDevice::write with its pre-image: region classification from the independent geometry, byte diff confined to the call's file range / newly allocated clusters / owned directory slot / FAT entries of its chains; refused and read-only calls must not change a byte. One case in 16 goes to the mount engine: a FAT32 medium whose information sector (or BPB_FSInfo) is damaged; if it mounts, creating and writing a file may write only FAT blocks, the root directory, clusters that were free and the formatter's information sector."),
